@@ -67,7 +67,7 @@ GNext == /\ Len(hist) < Depth /\ ~Ended
             \/ "clean" \in Ops /\ Kind("clean") /\ (Script # <<>> \/ last.op # "clean") /\ Clean /\ Step("clean", 0)
             \/ "save" \in Ops /\ Kind("save") /\ (Script # <<>> \/ last.op # "save") /\ Save /\ Step("save", 0)
             \/ "load" \in Ops /\ Kind("load") /\ Load /\ Step("load", 0)
-            \/ "legacy" \in Ops /\ Kind("legacy") /\ \E b \in AllB : LoadLegacy(b) /\ Step("legacy", b)
+            \/ "legacy" \in Ops /\ Kind("legacy") /\ \E b \in AllB : \E I \in LegacyInvalid(b) : LoadLegacy(b, I) /\ Step("legacy", b)
             \/ "reload" \in Ops /\ Kind("reload") /\ Reload
             \/ "subscribe" \in Ops /\ Kind("subscribe") /\ Subscribe /\ Step("subscribe", 0)
             \/ "mark" \in Ops /\ Kind("mark") /\ \E b \in Blocks : MarkOK(b) /\ Mark(b) /\ (Ties \/ NoTie') /\ Step("mark", b)
